@@ -656,7 +656,7 @@ def judge_pwg(a, b, p, want, rng, mf=None):
     if pa in (None, "meridian"):
         info["cause"] = "unexplained"
         if want and r is False:
-            if float_plane_residual(unitf(a), unitf(b), unitf(p)) > impl()["eps"]:
+            if float_plane_residual(unitf(a), unitf(b), unitf(p)) > impl()["tol"]:      # the tolerance of the on-plane test
                 info["cause"] = "plane_test_eps"
             elif ulp_sensitive_pwg(a, b, p, True, rng):
                 info["cause"] = "ulp_sensitive"
@@ -702,7 +702,7 @@ def judge_gca(a, b, c, d, want, mf=None):
     if arc in ("general", "meridian"):
         info["cause"] = "unexplained"
         if clause == "crossing_missed":
-            eps = impl()["eps"]
+            eps = impl()["tol"]      # the tolerance of the on-plane test (ERROR_TOLERANCE since f96618a0)
             for cand, r1, r2 in gca_float_residuals(a, b, c, d):
                 if point_close(list(map(float, cand)), want[0]) and (r1 > eps or r2 > eps):
                     info["cause"] = "plane_test_eps"
